@@ -485,6 +485,12 @@ fn check_set<D: Dom>(s: &IntSet<D::T>, m: &Rs, probes: &[u64], pool: &[u32], w: 
     }
     afters.sort_unstable();
     afters.dedup();
+    // an inverted set that excludes long runs makes every start of an iteration walk those runs: fewer probes there
+    let heavy = s.is_inverted() && n - total > 2000;
+    if heavy {
+        let step = afters.len().div_ceil(3).max(1);
+        afters = afters.into_iter().step_by(step).collect();
+    }
     for v in afters {
         let ka = if small { k } else { 8 };
         let want = members_after(m, v, ka);
@@ -551,6 +557,10 @@ fn check_set<D: Dom>(s: &IntSet<D::T>, m: &Rs, probes: &[u64], pool: &[u32], w: 
         }
     }
     pairs.push((0, n - 1));
+    if heavy {
+        let step = pairs.len().div_ceil(6).max(1);
+        pairs = pairs.into_iter().step_by(step).collect();
+    }
     for (lo, hi) in pairs {
         let want = hits(m, lo, hi);
         if s.intersects_range(D::val(lo)..=D::val(hi)) != want {
@@ -1303,8 +1313,8 @@ fn codec_value() -> BoxedStrategy<u32> {
     .boxed()
 }
 fn set_desc() -> BoxedStrategy<SetDesc> {
-    let width = prop_oneof![40 => 0u32..70, 12 => 0u32..1200, 1 => 0u32..40_000];
-    let block = (0u8..4, prop_oneof![20 => 1u8..8, 1 => Just(8u8)], prop_oneof![3 => 0u32..6, 1 => any::<u32>(), 1 => Just(u32::MAX)]);
+    let width = prop_oneof![60 => 0u32..70, 18 => 0u32..1200, 1 => 0u32..12_000];
+    let block = (0u8..4, prop_oneof![60 => 1u8..8, 1 => Just(8u8)], prop_oneof![3 => 0u32..6, 1 => any::<u32>(), 1 => Just(u32::MAX)]);
     let bits = prop_oneof![4 => Just(32u8), 1 => Just(31u8), 5 => 1u8..=32];
     (bits, proptest::collection::vec(codec_value(), 0..24), proptest::collection::vec((codec_value(), width), 0..4), proptest::collection::vec(block, 0..4))
         .prop_map(|(bits, pts, ranges, blocks)| SetDesc { bits, pts, ranges, blocks })
@@ -1505,9 +1515,9 @@ fn materialize(i: &Input) -> Vec<u8> {
         }
         Input::Nodes { bf, h, nodes, trail } => pack_nodes(*bf, *h, nodes, trail),
         Input::Havoc { set, bf, edits } => {
-            // keep the valid encodings small: at most 4096 members
+            // keep the valid encodings small: at most 1024 members
             let mut m = set.model();
-            let mut budget = 4096u64;
+            let mut budget = 1024u64;
             let mut cut: Rs = vec![];
             for r in m.drain(..) {
                 if budget == 0 {
@@ -1562,7 +1572,7 @@ fn materialize(i: &Input) -> Vec<u8> {
     }
 }
 /// more members than this and the comparison is made at a reduced maximum (keeps the set's pages small)
-const MEMBER_CAP: u64 = 1 << 22;
+const MEMBER_CAP: u64 = 1 << 18;
 
 fn compare_with_spec(data: &[u8], bias: u32, max: u32, st: Option<&Stats>) -> Result<Option<RefOut>, Fail> {
     let reference = ref_decode(data, bias, max);
@@ -1615,19 +1625,19 @@ fn test_bytes(c: &BytesCase, st: &Stats) -> CaseResult {
     };
     let bf = bf_of(b0);
     let h = ((b0 >> 2) & 31) as u32;
-    if h > max_height(bf) || b0 & 0x80 != 0 {
-        // outside the supported heights (or reserved header bit set): only "no panic" is demanded
-        let _ = IntSet::<u32>::from_sparse_bit_set_bounded(&data, c.bias, c.max);
-        st.class(if h > max_height(bf) { "bytes:height-above-maximum(no-panic-only)" } else { "bytes:reserved-bit(no-panic-only)" });
-        return Ok(());
-    }
-    // resource guard: a filled node may stand for up to 2^32 members; compare those at a reduced maximum
+    // resource guard: a filled node may stand for up to 2^32 members; those inputs are decoded at a reduced maximum
     let mut max = c.max;
     let mut vol = 0u64;
     let _ = ref_decode_vol(&data, c.bias, max, &mut vol);
     if vol > MEMBER_CAP {
         max = max.min(c.bias.saturating_add(MEMBER_CAP as u32));
         st.class("bytes:maximum-reduced(huge-fill)");
+    }
+    if h > max_height(bf) || b0 & 0x80 != 0 {
+        // outside the supported heights (or reserved header bit set): only "no panic" is demanded
+        let _ = IntSet::<u32>::from_sparse_bit_set_bounded(&data, c.bias, max);
+        st.class(if h > max_height(bf) { "bytes:height-above-maximum(no-panic-only)" } else { "bytes:reserved-bit(no-panic-only)" });
+        return Ok(());
     }
     let r = compare_with_spec(&data, c.bias, max, Some(st))?;
     if let Some(r) = r {
@@ -1707,25 +1717,43 @@ fn main() {
     ctx.assume("sets given to the encoder are stored inclusively (an inverted IntSet<u32> has ~2^32 members and cannot be encoded in bounded time)");
     ctx.assume("inclusive_iter() is required to be Some exactly when is_inverted() is false; which storage mode an operation leaves behind is not part of the property");
 
+    // development aid: C14_ONLY=stage[,stage] runs a subset (never set by registered commands)
+    let only = std::env::var("C14_ONLY").ok();
+    let on = |name: &str| only.as_ref().map(|o| o.split(',').any(|x| x == name)).unwrap_or(true);
     // exhaustive bounded histories
     let total = exh_total();
     let count = ctx.n(total / 20, total).clamp(1, total);
     let stride = total / count;
     let offset = ctx.seed % stride;
+    if on("hist-exhaustive") {
     ctx.index_stage("hist-exhaustive", Isolation::Threads, count, |i| exh_case((i * stride + offset).min(total - 1)), test_hist);
+    }
     let complete = stride == 1 && count == total;
-    ctx.note("exhaustive_stages", if complete { json!(["hist-exhaustive"]) } else { json!([]) });
+    ctx.note("exhaustive_stages", if complete && on("hist-exhaustive") { json!(["hist-exhaustive"]) } else { json!([]) });
     ctx.note(
         "hist_exhaustive_space",
         json!({"alphabet": EXH_ALPHABET, "length": EXH_LEN, "start_modes": 2, "histories": total, "executed": count, "stride": stride,
                "complete": complete, "note": "every prefix of a history is checked, so all lengths <= 4 are covered"}),
     );
 
-    ctx.prop_stage("hist-random", Isolation::Threads, ctx.n(5_000, 60_000), hist_strategy, test_hist);
-    ctx.prop_stage("eqord", Isolation::Threads, ctx.n(60_000, 1_000_000), eq_strategy, test_eq);
+    if on("hist-random") {
+    ctx.prop_stage("hist-random", Isolation::Threads, ctx.n(8_000, 60_000), hist_strategy, test_hist);
+    }
+    if on("eqord") {
+    ctx.prop_stage("eqord", Isolation::Threads, ctx.n(100_000, 1_000_000), eq_strategy, test_eq);
+    }
+    if on("rangeset") {
     ctx.prop_stage("rangeset", Isolation::Threads, ctx.n(30_000, 500_000), r_strategy, test_rangeset);
-    ctx.prop_stage("codec-roundtrip", Isolation::Threads, ctx.n(6_000, 150_000), rt_strategy, test_roundtrip);
-    ctx.prop_stage("codec-bytes", Isolation::Threads, ctx.n(150_000, 2_500_000), bytes_strategy, test_bytes);
+    }
+    if on("codec-roundtrip") {
+    ctx.prop_stage("codec-roundtrip", Isolation::Threads, ctx.n(8_000, 100_000), rt_strategy, test_roundtrip);
+    }
+    if on("codec-bytes") {
+    let iso = if std::env::var("C14_PROCS").is_ok() { Isolation::Procs } else { Isolation::Threads };
+    ctx.prop_stage("codec-bytes", iso, ctx.n(600_000, 4_000_000), bytes_strategy, test_bytes);
+    }
+    if on("codec-filled-root") {
     ctx.index_stage("codec-filled-root", Isolation::Threads, 4, root_case, test_root);
+    }
     ctx.finish();
 }
